@@ -87,10 +87,22 @@ fn comb_scn(comb: Comb, scripts: Vec<Vec<i64>>, take: Option<usize>, q: Option<u
       if terms.iter().any(|t| matches!(t.k, EvK::Error(_))) {
         v.push(viol("unexpected-error", format!("saw {}", rec.short())));
       }
-      // terminal after the last item
+      // terminal after the last item. Without a terminating operator the statement promises exactly that
+      // (every input completes after its last `next` has returned). With `take(n)` downstream the
+      // completion is forced by one thread while another may already be inside `Observer::next` - past the
+      // gate, not yet in the callback; for that the promise is C19's: no callback for an item whose
+      // delivery *started* after the terminal callback had returned
       if let Some(t) = terms.first() {
-        if rec.events().iter().any(|x| matches!(x.k, EvK::Next(_)) && x.enter > t.enter) {
-          v.push(viol("item-after-complete", format!("saw {}", rec.short())));
+        if take.is_none() {
+          if rec.events().iter().any(|x| matches!(x.k, EvK::Next(_)) && x.enter > t.enter) {
+            v.push(viol("item-after-complete", format!("saw {}", rec.short())));
+          }
+        } else {
+          for x in contract_violations(&rec, &causes) {
+            if x.class == "event-after-terminal" {
+              v.push(viol("item-after-complete", x.detail.clone()));
+            }
+          }
         }
       }
       if let Some(n) = take {
